@@ -278,6 +278,10 @@ def gen_scenario(rng, idx):
             ls = resources[src].split("\n")
             ls.insert(rng.randrange(len(ls)), "%include nosuchfile.conf")
             resources[src] = "\n".join(ls)
+        if rng.random() < 0.08:
+            # a size class: one resource of more than 128 KiB (comment lines)
+            big = rng.choice(sorted(resources))
+            resources[big] = "# " + "padding " * 18000 + "\n" + resources[big]      # one long line: one fault point
         return {"kind": "config", "resources": resources, "main": main,
                 "packages": {pkg + "a": {"component.xml": PKG_COMPONENT}} if use_import else {},
                 "entry": rng.choice(["url", "file"])}
@@ -371,6 +375,33 @@ class Runner:
         else:
             # one ConfigLoader object serves the faulted load and the fault-free load after it
             self.cloader = ZConfig.loader.ConfigLoader(self.schema)
+
+    def rewrite_and_reload(self):
+        """The application corrects the top file on disk (here: replaces it by one known line) and
+        loads it again through the SAME loader object; then the original text is put back.
+        -> None when the loader reads the new content."""
+        import os
+        ZConfig = loadcheck.zc()
+        loader = getattr(self, "cloader", None)
+        if loader is None:
+            return None
+        path = urllib.request.url2pathname(self.main[len("file://"):])
+        with open(path, encoding="utf-8") as f:
+            original = f.read()
+        try:
+            with open(path, "w", encoding="utf-8", newline="\n") as f:
+                f.write("top zcv-rewritten\n")
+            try:
+                cfg, _h = loader.loadURL(self.main)
+                got = list(cfg.top)
+            except Exception as e:  # noqa
+                return "reload of the rewritten file raised %r" % (e,)
+            if got != ["zcv-rewritten"]:
+                return "rewritten file gave top=%r" % (got,)
+            return None
+        finally:
+            with open(path, "w", encoding="utf-8", newline="\n") as f:
+                f.write(original)
 
     def probe(self):
         """After a (failed) load: a text that only USES the name the scenario defines, through the
@@ -485,6 +516,10 @@ def run_scenario(sc, res=None, only=None):
                 out.append(("fault-swallowed:%s" % label, "point %r" % (p,), p))
             if o[0] == "other":
                 out.append(("unexpected-exception:%s:%s" % (label, o[1]), "point %r: %s" % (p, o[2]), p))
+            if sc["kind"] == "config" and p[0] != "conv":
+                changed = R.rewrite_and_reload()
+                if changed is not None:
+                    out.append(("later-load-reads-stale-content-after-%s-fault" % label, "point %r ; %s" % (p, changed), p))
             again = R.run()
             if again != base:
                 out.append(("later-load-differs-after-%s-fault" % label,
